@@ -429,7 +429,9 @@ class _Gen:
                         elif base == 0.0:
                             conf[ph] = 0.0
                         else:
-                            conf[ph] = base * draw(st.floats(0.0, 1.5))
+                            # exactly 0 or a sensible fraction (no denormal-sized loads: the
+                            # converter law is discontinuous at io = 0)
+                            conf[ph] = base * draw(st.one_of(st.just(0.0), st.floats(0.01, 1.5)))
                     n["pconf"] = conf
             if o.odd_phase_conf:
                 # names that are not system phases may appear in a configuration (they never
